@@ -75,6 +75,10 @@ def _job(sub, name):
         if rep:
             sub.fail("%s.structure.%s" % (PROP, name), {"replay": info}, function="models/%s: Fq" % name)
     try:
+        _radius_modes_finite(sub, name)
+    except OutsideSubset:
+        pass
+    try:
         _equivalent_volume(sub, name)
     except OutsideSubset as exc:
         from sasmodels import core
@@ -176,6 +180,88 @@ def _equivalent_volume(reg, name):
         # "outer" volume modes of hollow/shell shapes refer to the outer shape: form_volume is the outer volume
         reg.prove(oid, ax + pos, m43 * Rv * Rv * Rv == Vv, function=where, engine="cvc", nl=True,
                   replay=rp, timeout_ms=60000)
+
+
+def _radius_modes_finite(reg, name):
+    """For every selectable effective-radius mode: no division by zero in radius_effective for positive size
+    parameters (a zero divisor is how a NaN radius arises).  A satisfiable divisor == 0 is replayed on the
+    compiled model; obligations the solver cannot decide are listed, not claimed."""
+    me = ModelExec(name)
+    info = me.info
+    modes = info.radius_effective_modes or []
+    if not modes or "radius_effective" not in me.tu.functions:
+        return
+    pos = [v > 0 for v in me.vol_args]
+    skipped = []
+    for k, mode_name in enumerate(modes, 1):
+        where = "models/%s: radius_effective mode %d (%s)" % (name, k, mode_name)
+        safety = []
+        try:
+            Rv, defs = me.run_fn("radius_effective", [z3.IntVal(k)] + me.vol_args, safety=safety)
+        except OutsideSubset as exc:
+            skipped.append("mode %d: %s" % (k, exc))
+            continue
+        # sqrt facts for the divisors
+        oid = "%s.radius_effective_has_no_zero_divisor.%s.mode%d" % (PROP, name, k)
+        verdict, witness = "discharged", None
+        for kind, facts, goal, line in safety:
+            ax = []
+            seen, stack = set(), [goal] + facts
+            while stack:
+                e = stack.pop()
+                if e.get_id() in seen:
+                    continue
+                seen.add(e.get_id())
+                if z3.is_app(e):
+                    if e.decl().name() == "sqrt" and e.num_args() == 1:
+                        ax += [e >= 0, z3.Implies(e.arg(0) >= 0, e * e == e.arg(0)), z3.Implies(e.arg(0) > 0, e > 0)]
+                    if e.decl().name() == "cbrt" and e.num_args() == 1:
+                        ax += [e * e * e == e.arg(0), z3.Implies(e.arg(0) > 0, e > 0)]
+                    stack.extend(e.children())
+            s = z3.Solver()
+            s.set("timeout", 30000)
+            s.add(*(pos + facts + ax))
+            s.add(z3.Not(goal))
+            r = s.check()
+            if r == z3.sat:
+                m = s.model()
+                pars = {}
+                for v in me.vol_args:
+                    val = m.eval(v, model_completion=True)
+                    try:
+                        pars[v.decl().name()] = float(val.as_fraction())
+                    except Exception:
+                        pars[v.decl().name()] = float(val.approx(12).as_fraction()) if hasattr(val, "approx") else 1.0
+                bad, rinfo = replay_radius_finite(name, k, pars)
+                if bad:
+                    verdict, witness = "violated", dict(rinfo, source_line=line)
+                    break
+                verdict = "unknown" if verdict == "discharged" else verdict
+            elif r != z3.unsat:
+                verdict = "unknown" if verdict == "discharged" else verdict
+        if verdict == "violated":
+            reg.fail(oid, witness, function=where, engine="cvc")
+        elif verdict == "discharged":
+            reg.passed(oid, function=where, engine="cvc", backend="z3")
+        else:
+            skipped.append("mode %d: a divisor obligation is undecided" % k)
+    if skipped:
+        reg.extra.setdefault("radius_modes_not_decided", {})[name] = skipped
+
+
+def replay_radius_finite(name, mode, pars):
+    import numpy as np
+    from sasmodels import core
+    from sasmodels.direct_model import call_Fq
+    m = core.load_model(name)
+    k = m.make_kernel([np.array([0.01])])
+    try:
+        F1, F2, R, Vs, Vr = call_Fq(k, dict(pars, radius_effective_mode=mode))
+    except Exception as exc:      # noqa
+        return False, {"note": repr(exc)[:100]}
+    bad = not (np.isfinite(R) and R > 0)
+    return bool(bad), {"call": "call_Fq(%s, %r, radius_effective_mode=%d)" % (name, pars, mode), "real": float(R),
+                       "spec": "positive and finite"}
 
 
 _m43_cache = []
